@@ -376,6 +376,22 @@ func (e *Env) binary(x *Expr) TV {
 		}
 		return TV{Not(Eq(a.T, b.T)), nil}
 	case "<", "<=", ">", ">=":
+		if a.T.Sort == SStr && b.T.Sort == SStr {
+			e.x.b.DeclFun("str_lt", []Sort{SStr, SStr}, SBool)
+			lt := func(p, q Term) Term { return App(SBool, "str_lt", p, q) }
+			// total strict order facts for this pair
+			e.fact(And(Or(Eq(a.T, b.T), lt(a.T, b.T), lt(b.T, a.T)), Not(And(lt(a.T, b.T), lt(b.T, a.T))), Not(lt(a.T, a.T)), Not(lt(b.T, b.T))))
+			switch op {
+			case "<":
+				return TV{lt(a.T, b.T), nil}
+			case ">":
+				return TV{lt(b.T, a.T), nil}
+			case "<=":
+				return TV{Not(lt(b.T, a.T)), nil}
+			default:
+				return TV{Not(lt(a.T, b.T)), nil}
+			}
+		}
 		if a.T.Sort != SInt || b.T.Sort != SInt {
 			sfail("ordering on non-integers in %s", x)
 		}
@@ -618,7 +634,16 @@ func (e *Env) call(x *Expr) TV {
 		return TV{Implies(And(hyp...), Eq(Select(e.vars["$cur"].T, r), Select(e.vars["$pre"].T, r))), nil}
 	case "$exhausted":
 		k := e.Tr(x.Args[0]).T
-		return TV{Implies(And(Not(e.vars["$ok"].T), Select(e.vars["$has"].T, k)), Select(e.vars["$vis"].T, k)), nil}
+		// keys present when the range started and still present are visited before the range ends
+		return TV{Implies(And(Not(e.vars["$ok"].T), Select(e.vars["$has"].T, k), Select(e.vars["$hasentry"].T, k)), Select(e.vars["$vis"].T, k)), nil}
+	case "visited":
+		k := e.Tr(x.Args[0]).T
+		v, ok := e.vars["$visited"]
+		if !ok {
+			sfail("visited(k) used outside a map-range loop invariant")
+		}
+		e.cands.addKey(k)
+		return TV{Select(v.T, k), nil}
 	case "$appended":
 		j := e.Tr(x.Args[0]).T
 		r, s, t := e.vars["$r"].T, e.vars["$s"].T, e.vars["$t"].T
